@@ -21,17 +21,20 @@ pub fn stream_records(cx: &mut Ctx, out: &mut Vec<Rec>, id: u16, role: u16, nois
     let streams = role_streams(role);
     let mut groups: Vec<Vec<Rec>> = Vec::new();
     for (i, &s) in streams.iter().enumerate() {
-        let total = match cx.ch.weighted(&[6, 12, 9, 1]) {
+        // scale: one stream in ~400 is either long (1..2 MiB in maximum-size records) or consists of very many
+        // (8000..30000) tiny records - counters and offsets that creep with every record or byte
+        let scale = if compliant && phase == Phase::Stream && cx.ch.chance(1, 400) { 1 + cx.ch.pick(2) } else { 0 }; // (sync stream scenario only: a simulated connection would need millions of scheduler steps)
+        let total = if scale == 1 { cx.probe("stream_over_1mib"); cx.ch.range(1 << 20, 2 << 20) } else if scale == 2 { cx.probe("stream_of_8000plus_records"); cx.ch.range(40_000, 150_000) } else { match cx.ch.weighted(&[6, 12, 9, 1]) {
             0 => 0,
             1 => cx.ch.range(1, 64),
             2 => cx.ch.range(65, 1200),
             _ => cx.ch.one_of(&[65535usize, 65536, 70000, 131070]),
-        };
+        } };
         let content = pattern(0x40 + i as u8 * 0x55, total);
         let mut g = Vec::new();
         let mut p = 0;
         // huge streams in tiny records only multiply the record count: keep records large there
-        let style = if total > 4000 { cx.ch.one_of(&[0u32, 3]) } else { cx.ch.pick(4) };
+        let style = if scale == 2 { 1 } else if total > 4000 { cx.ch.one_of(&[0u32, 3]) } else { cx.ch.pick(4) };
         while p < total {
             let rem = total - p;
             let k = match style {
